@@ -39,7 +39,7 @@ def generic_pattern(repo, flavour="decoder"):
             v = n.value
             if isinstance(v, ast.Call) and dotted(v.func) == "Matcher" and v.args and const_str(v.args[0]) is not None:
                 return m, fn, n, const_str(v.args[0])
-            raise AnalysisError("generic sequence matcher is not Matcher(<literal>): %s" % norm(v))
+            return m, fn, n, None
     return m, fn, None, None
 
 
